@@ -136,7 +136,12 @@ def gen(rng, tier, allow_required=False, mod_id='C01'):
       ops.append({'op': 'call', 'probe': spec['name'], 'scope': sc,
                   'ambient': ambient, 'pos': pos, 'kw': kw, 'via': via,
                   'noise': rng.choice([None, None, None, 'invalid_scope',
-                                       'nested_ok', 'prebuilt_last'])})
+                                       'nested_ok', 'prebuilt_last']),
+                  # caller values with unusual equality; bodies interrupted by a
+                  # non-Exception BaseException (the scope must be restored)
+                  'weird_values': rng.choice([None, None, None, None, 'eq_any',
+                                              'eq_raises']),
+                  'raises_base': (not allow_required) and rng.random() < 0.08})
     elif r < 0.9:
       sc = _scope(rng)
       if scopes_used and rng.random() < 0.7:
@@ -178,6 +183,33 @@ def gen(rng, tier, allow_required=False, mod_id='C01'):
 # Execution
 # ---------------------------------------------------------------------------
 
+class BaseFault(BaseException):
+  """Not an Exception: KeyboardInterrupt-like."""
+
+
+class _EqAnything(probes.Tok):
+  """A caller value that claims to be equal to everything (like mock.ANY)."""
+  __slots__ = ()
+
+  def __eq__(self, other):
+    return True
+
+  def __ne__(self, other):
+    return False
+
+  __hash__ = probes.Tok.__hash__
+
+
+class _EqRaises(probes.Tok):
+  """A caller value whose comparison raises (like a numpy array's truth)."""
+  __slots__ = ()
+
+  def __eq__(self, other):
+    raise TypeError('comparison of this value is ambiguous')
+
+  __hash__ = probes.Tok.__hash__
+
+
 class World:
   """Probes compiled and registered in the current gin world."""
 
@@ -187,6 +219,7 @@ class World:
     self.by_tid = {}
     self.originals = {}
     self.raise_next = None
+    self.raise_base_next = None
     self.objs = {}
     self.holders = {}
     self.specs = {s['name']: s for s in specs}
@@ -206,6 +239,9 @@ class World:
       if self.raise_next and name == self.raise_next:
         self.raise_next = None
         raise RuntimeError('injected body fault')
+      if self.raise_base_next and name == self.raise_base_next:
+        self.raise_base_next = None
+        raise BaseFault('injected non-Exception fault')
       return 'ret-' + name
     self.hookname = {}
     for s in specs:
@@ -259,7 +295,8 @@ class World:
     def conv(v):
       if v == cm.REQ:
         return gin.REQUIRED
-      t = probes.Tok(0, v)
+      kinds = {'eq_any': _EqAnything, 'eq_raises': _EqRaises}
+      t = kinds.get(op.get('weird_values'), probes.Tok)(0, v)
       toks[v] = t
       return t
     args = [conv(v) for v in op['pos']]
@@ -268,6 +305,8 @@ class World:
     via = op['via']
     n0 = len(self.calls)
     exc = None
+    if op.get('raises_base'):
+      self.raise_base_next = self.hookname[op['probe']]
     try:
       scope_ctx = op['ambient'] if via == 'getcfg_scoped' else op['scope']
       if op.get('noise') == 'prebuilt_last' and scope_ctx:
@@ -305,6 +344,9 @@ class World:
           callee(*args, **kwargs)
     except Exception as e:  # pylint: disable=broad-except
       exc = e
+    except BaseFault as e:
+      exc = e
+    self.raise_base_next = None
     # gin may have called other probes (producers) first: the record of this
     # call is the newest one made by the probe itself.
     mine = [r for r in self.calls[n0:] if r[0] == self.hookname[op['probe']]]
@@ -315,6 +357,13 @@ class World:
 
 def check_call(v, op, exp, exc, rec, toks, prefix='C01'):
   """Compares one observed call with the model's expectation."""
+  if op.get('raises_base') and exp['status'] == 'ok':
+    if not isinstance(exc, BaseFault):
+      v(prefix + '.call_succeeds', ['base-fault-lost'],
+        'call %r: the non-Exception fault raised by the body reached the caller '
+        'as %r' % (op, exc))
+      return
+    exc = None
   what = 'call %s%s pos=%r kw=%r under %r via %s' % (
       op['probe'], '', op['pos'], op['kw'], op['scope'], op['via'])
   if exp['status'] == 'error':
@@ -440,6 +489,12 @@ def execute(case, allow_required=False, prefix='C01'):
       elif len(op['scope']) >= 2 and exp['from_gin'] and (op['pos'] or op['kw']):
         stats['deep_scope_with_caller'] += 1
       check_call(v, op, exp, exc, rec, toks, prefix)
+      if gin.current_scope() != []:
+        v(prefix + '.scope_after_call', ['base-fault' if op.get('raises_base')
+                                         else 'normal'],
+          'after call %r the active scope is %r, not the root scope' %
+          (op, gin.current_scope()))
+        world.config._SCOPE_MANAGER = type(world.config._SCOPE_MANAGER)()  # pylint: disable=protected-access
       log.add('call', op['probe'], op['scope'], op['via'],
               type(exc).__name__ if exc else None,
               probes.stable(rec[1:4]) if rec else None)
